@@ -597,6 +597,25 @@ impl Oracle {
                 }
             }
             Pres::Maybe | Pres::Unknown => {
+                // the item may have expired unseen (e.g. after a delayed flush whose deadline the history does not
+                // pin down): a success either updated the live item (flags kept) or re-created the key (flags 0).
+                // The returned counter tells the two apart unless both readings give the same number.
+                if ok && pres == Pres::Maybe {
+                    if let (Some(rv), Some(it)) = (rvalue, self.item(key).cloned()) {
+                        let live_val = strict_decimal(&it.value).map(compute);
+                        let could_live = live_val == Some(rv);
+                        let could_create = rv == initial && exp != 0xffff_ffff;
+                        if could_create && !could_live {
+                            let dl = deadline(now, exp);
+                            self.stored(line, key, initial.to_string().into_bytes(), 0, ack, dl, dl, Ttl::Known(exp), false, cas != 0);
+                            return;
+                        }
+                        if could_create && could_live {
+                            self.keys.insert(key.to_vec(), KState::Unknown);
+                            return;
+                        }
+                    }
+                }
                 if ok {
                     match rvalue {
                         Some(rv) => {
